@@ -179,7 +179,9 @@ func violate(c *Case, kind, sig, what string, expected, actual any) {
 func judge(c *Case, o Outcome, alone bool) string {
 	n := len(c.bin)
 	if o.Crash != "" {
-		if !alone {
+		// a single allocation request far beyond the address-space limit fails deterministically,
+		// whatever the load on the machine: no need to repeat it alone
+		if !alone && !(o.Crash == "exit" && hugeRequest(o.Stderr)) {
 			rep.Count("rerun-alone:" + o.Crash)
 			return judge(c, pool.Alone(c.req(c.Mode), aloneDeadline), true)
 		}
@@ -193,7 +195,9 @@ func judge(c *Case, o Outcome, alone bool) string {
 		}
 		cls := crashClass(o.Stderr)
 		sig := "C03:child-crash:" + cls
-		if cs := cause(c); cs != "" && cls == "out-of-memory" {
+		if cls == "out-of-memory" && strings.Contains(o.Stderr, "(*TableInstance).Grow") {
+			sig = "F38:table.grow-host-allocation-has-no-limit"
+		} else if cs := cause(c); cs != "" && cls == "out-of-memory" {
 			sig = cs
 		} else if cls != "out-of-memory" {
 			sig += ":" + strings.ReplaceAll(normalize(firstFatal(o.Stderr)), " ", "-")
@@ -280,8 +284,14 @@ func judge(c *Case, o Outcome, alone bool) string {
 				continue
 			}
 			sig := "C03:accepted-module-internal-failure:" + e.Name + ":" + strings.ReplaceAll(normalize(in), " ", "-")
-			if e.Name == "compiler" && strings.HasPrefix(in, "ExportedFunction(") && strings.Contains(in, "index out of range") && strings.Contains(in, "moduleEngine).NewFunction") {
-				sig = "F35:compiler-ExportedFunction-of-reexported-host-function-panics"
+			if e.Name == "compiler" && strings.Contains(in, "index out of range") && strings.Contains(in, "moduleEngine).NewFunction") {
+				// one defect, two entry points: api.Module.ExportedFunction of a re-exported host function,
+				// and InstantiateModule when the start function is an imported host function
+				if strings.HasPrefix(in, "ExportedFunction(") {
+					sig = "F35:compiler-ExportedFunction-of-reexported-host-function-panics"
+				} else if strings.Contains(in, "Store).instantiate") {
+					sig = "F35:compiler-InstantiateModule-panics-when-start-function-is-imported-host-function"
+				}
 			}
 			violate(c, "impl-violation", sig,
 				"internal failure of the runtime on a module CompileModule accepted ("+e.Name+"): "+in, "trap, result or error", in)
@@ -289,6 +299,19 @@ func judge(c *Case, o Outcome, alone bool) string {
 		}
 	}
 	return verdict
+}
+
+var allocReq = regexp.MustCompile(`cannot allocate ([0-9]+)-byte block`)
+
+// hugeRequest: the child died on one allocation request of at least 1 GiB.
+func hugeRequest(stderr string) bool {
+	m := allocReq.FindStringSubmatch(stderr)
+	if m == nil {
+		return false
+	}
+	var n uint64
+	fmt.Sscan(m[1], &n)
+	return n >= 1<<30
 }
 
 func firstFatal(stderr string) string {
